@@ -9,7 +9,8 @@ from props.C07 import gen_sel, _py_sel
 from props.C06 import describe, rules
 
 REQUIRED_THEOREMS = ['Usid.C11.sides', 'Usid.C11.placeholder', 'Usid.C11.rows_cols_are_the_selection',
-                     'Usid.C11.selected_rows_subgrid', 'Usid.C11.sliced_side_dims', 'Usid.C11.sliced_side_coordinates']
+                     'Usid.C11.selected_rows_subgrid', 'Usid.C11.sliced_side_dims', 'Usid.C11.sliced_side_coordinates',
+                     'Usid.C11.position_side_end_to_end', 'Usid.C11.spectroscopic_side_end_to_end']
 RULE = ('generator datasets built with raw h5py (any storage order) AND datasets produced by the library\'s own writer in '
         'both ordering conventions, crossed with slicing dictionaries as in C07 (ints, slices, index lists on any '
         'subset of dimensions) and with the wrapper\'s view (file order, sorted, toggled); the new dataset is read back with raw h5py and compared, coordinate by coordinate '
